@@ -121,6 +121,15 @@ CLAIMED = {
              "node text, blank trimming and the decorator extension are checked by the coherence oracle, not proved.",
         technique="Lean 4 proof (list/arith induction) + differential correspondence + span-vs-ast.get_source_segment oracle",
     ),
+    "C06": dict(
+        text="Machine-checked proof of order independence: the scheduled list depends only on the set of accepted rewrites (the final sort key is a total order, "
+             "ties are identical rewrites); the tasks of a format_files pass may be executed in any order with the same resulting files; format_files gives the "
+             "same result for every order of the file list. 4 theorems + model-evaluated witnesses that overlapping default-numbered yields ARE order dependent.",
+        design="4/C06",
+        note="Trusted: Lean kernel; Sched/FormatFiles models tied by the scheduler suites and suite formatfiles (real pool, n_cores 1-16, shuffled lists); starmap "
+             "result order and one-writer-per-file are assumptions; hash-seed / address-layout independence of the rules is examined by fresh-process oracles only.",
+        technique="Lean 4 proof (sorted permutations are equal; disjoint-task commutation) + differential correspondence + PYTHONHASHSEED / worker-count oracles",
+    ),
 }
 
 NOT_YET = {}
